@@ -251,18 +251,25 @@ func (r *relay) processFrame(f http2.Frame) error {
 			r.destMu.Unlock()
 		} else {
 			var settings []http2.Setting
+			// The values of a SETTINGS frame take effect together. A parameter that appears more than
+			// once has its last value, an earlier one must not be acted upon (it could release queued
+			// data that the final value does not allow).
+			last := make(map[http2.SettingID]uint32)
 			if err = f.ForeachSetting(func(s http2.Setting) error {
-				switch s.ID {
-				case http2.SettingHeaderTableSize:
-					r.peer.updateTableSize(s.Val)
-				case http2.SettingInitialWindowSize:
-					r.peer.updateInitialWindowSize(s.Val)
-				case http2.SettingMaxFrameSize:
-					r.peer.updateMaxFrameSize(s.Val)
-				}
+				last[s.ID] = s.Val
 				settings = append(settings, s)
 				return nil
 			}); err == nil {
+				if v, ok := last[http2.SettingHeaderTableSize]; ok {
+					r.peer.updateTableSize(v)
+				}
+				if v, ok := last[http2.SettingInitialWindowSize]; ok {
+					r.peer.updateInitialWindowSize(v)
+				}
+				if v, ok := last[http2.SettingMaxFrameSize]; ok {
+					r.peer.updateMaxFrameSize(v)
+				}
+
 				r.destMu.Lock()
 				err = r.dest.WriteSettings(settings...)
 				r.destMu.Unlock()
